@@ -1306,6 +1306,17 @@ class Engine:
         elif isinstance(target, ast.Attribute):
             for st1, obj in self.ev(target.value, st):
                 yield from self.set_attr(obj, target.attr, v, st1, target)
+        elif isinstance(target, ast.Subscript) and isinstance(target.slice, ast.Slice):
+            sl = target.slice
+            if sl.lower is not None or sl.upper is not None or sl.step is not None:
+                raise Untranslatable("partial slice assignment", target)
+            # x[:] = v: the whole content of the list is replaced (lists are values of the store: same write-back as x[i] = v)
+            for st1, obj in self.ev(target.value, st):
+                is_list = isinstance(obj, VList) or (isinstance(obj, V) and isinstance(obj.kind, Seq))
+                v_list = isinstance(v, VList) or (isinstance(v, V) and isinstance(v.kind, Seq))
+                if not is_list or not v_list:
+                    raise Untranslatable("slice assignment on a non-list", target)
+                yield from self.assign(self.as_store(target.value), v, st1)
         elif isinstance(target, ast.Subscript):
             for st1, obj in self.ev(target.value, st):
                 for st2, idx in self.ev(target.slice, st1):
